@@ -30,6 +30,24 @@ macro_rules! cursor_from_str {
             if $n == 1 && cs[0].is_ascii_digit() {
                 assert!(matches!(got, Ok(Cursor::BeginAligned(x)) if x == (cs[0] as usize) - 48), "\"d\" is BeginAligned(d)");
             }
+            // value-exact on every all-digit body (1 or 2 digits after the optional minus sign)
+            if $n == 3 && cs[0] == '-' && cs[1].is_ascii_digit() && cs[2].is_ascii_digit() {
+                let v = ((cs[1] as isize) - 48) * 10 + ((cs[2] as isize) - 48);
+                assert!(matches!(got, Ok(Cursor::EndAligned(x)) if x == -v), "\"-dd\" is EndAligned(-dd)");
+            }
+            if $n == 2 && cs[0].is_ascii_digit() && cs[1].is_ascii_digit() {
+                let v = ((cs[0] as usize) - 48) * 10 + ((cs[1] as usize) - 48);
+                assert!(matches!(got, Ok(Cursor::BeginAligned(x)) if x == v), "\"dd\" is BeginAligned(dd)");
+            }
+            // and nothing but digits (std's grammar also admits one leading '+' for the begin-aligned form: tolerated)
+            // ever yields a value: a parsed cursor's magnitude is the decimal value of the digits
+            if let Ok(Cursor::EndAligned(x)) = &got {
+                assert!(*x > -100, "at most two digits follow the sign");
+            }
+            if let Ok(Cursor::BeginAligned(x)) = &got {
+                assert!(*x < 1000, "at most three digits");
+                assert!(cs[0].is_ascii_digit() || (cs[0] == '+' && $n >= 2), "a begin-aligned cursor starts with a digit (or std's '+')");
+            }
             kani::cover!($n < 2 || matches!(got, Ok(Cursor::EndAligned(_))), "end-aligned parsed");
             kani::cover!($n < 1 || matches!(got, Ok(Cursor::BeginAligned(_))), "begin-aligned parsed");
             kani::cover!($n < 1 || (got.is_err() && cs[0].len_utf8() == 3), "3-byte character refused");
@@ -41,6 +59,28 @@ cursor_from_str!(c19_cursor_from_str_len0, 0);
 cursor_from_str!(c19_cursor_from_str_len1, 1);
 cursor_from_str!(c19_cursor_from_str_len2, 2);
 cursor_from_str!(c19_cursor_from_str_len3, 3);
+
+// concrete witnesses (NO symbolic input): the extreme integers a document can carry in a cursor. A symbolic
+// 20-character string does not finish in the integer parser (see C09), so these are ordinary tests pushed through the
+// same tool chain: no panic / overflow, and the value is the literal's.
+macro_rules! cursor_extreme_witness {
+    ($name:ident, $lit:expr, $expect:pat) => {
+        #[kani::proof]
+        #[kani::unwind(24)]
+        #[kani::stub(alloc::fmt::format, fmt_stub)]
+        fn $name() {
+            let s: &str = $lit;
+            let got = Cursor::try_from(s);
+            assert!(matches!(got, $expect), "extreme cursor literal: exact value or an error, never a panic");
+            core::mem::forget(got);
+        }
+    };
+}
+cursor_extreme_witness!(c19_witness_cursor_isize_min, "-9223372036854775808", Ok(Cursor::EndAligned(isize::MIN)));
+cursor_extreme_witness!(c19_witness_cursor_below_isize_min, "-9223372036854775809", Err(_));
+cursor_extreme_witness!(c19_witness_cursor_usize_max, "18446744073709551615", Ok(Cursor::BeginAligned(usize::MAX)));
+cursor_extreme_witness!(c19_witness_cursor_above_usize_max, "18446744073709551616", Err(_));
+cursor_extreme_witness!(c19_witness_cursor_neg_usize_max, "-18446744073709551615", Err(_));
 
 #[kani::proof]
 #[kani::unwind(14)]
